@@ -14,6 +14,7 @@ import (
 	"go/token"
 	"go/types"
 	"path/filepath"
+	"sort"
 	"strings"
 )
 
@@ -251,6 +252,44 @@ func init() {
 		n.gone = true
 		return iface{}, true
 	})
+	// filepath.Glob with a concrete pattern whose directory part has no meta characters:
+	// the entries of that directory whose (concrete) names match, in lexical order
+	intrinsics["path/filepath.Glob"] = func(fr *frame, a []value) (value, bool) {
+		m := fr.m
+		pat, ok := a[0].(string)
+		if !ok {
+			pat = m.concretizeStr(a[0])
+		}
+		dir, last := filepath.Dir(pat), filepath.Base(pat)
+		if strings.ContainsAny(dir, "*?[\\") {
+			panic(engineErr("filepath.Glob with meta characters in the directory part is not modelled"))
+		}
+		if _, err := filepath.Match(last, ""); err != nil {
+			return tuple{[]value(nil), m.errIface("syntax error in pattern")}, true
+		}
+		d := m.fsLookup(dir)
+		var names []string
+		if d != nil && d.isDir {
+			for _, k := range d.kids {
+				if k.gone {
+					continue
+				}
+				name, ok := k.name.(string)
+				if !ok {
+					name = m.concretizeStr(k.name)
+				}
+				if ok, _ := filepath.Match(last, name); ok {
+					names = append(names, name)
+				}
+			}
+		}
+		sort.Strings(names)
+		out := make([]value, len(names))
+		for i, n := range names {
+			out[i] = filepath.Join(dir, n)
+		}
+		return tuple{out, iface{}}, true
+	}
 	in("os.RemoveAll", func(fr *frame, a []value) (value, bool) {
 		if n := fr.m.fsLookup(a[0]); n != nil && n.parent != nil {
 			n.gone = true
